@@ -264,3 +264,56 @@ def interp_table(prog, f, out_field):
                 if len(issues) > 3:
                     return table, (pre, suf), issues
     return table, (pre, suf), issues
+
+
+def interp_table_ret(prog, f, fixed=None):
+    """interp_table for an escaper that *returns* its text (a local String it builds): f(const String& / const char*, fixed
+    further arguments {param index: value}).  -> (table, framing, context issues)"""
+    import scansim, itertools
+    p0 = f['params'][0]
+    pt = T(f, p0['t'])
+    base = T(f, pt.get('to')) if (pt.get('ref') or pt.get('ptr')) else pt
+    as_string = base.get('rec') == 'asl::String'
+    if not as_string and not (pt.get('ptr') and base.get('bits') == 8):
+        raise Unresolved('escaper parameter is neither a C string nor a String')
+
+    def run(bs):
+        chars = [b - 256 if b > 127 else b for b in bs] + [0]
+        bufs = {}
+        if as_string:
+            bufs[('O', p0['id'])] = chars
+            r = scansim.Run(prog, f, bufs, objects=True)
+            r.objlen[p0['id']] = len(bs)
+            r.strobjs.add(p0['id'])
+        else:
+            bufs['IN'] = chars
+            r = scansim.Run(prog, f, bufs, ptr_params={p0['id']: ('P', 'IN', 0)}, objects=True)
+        for k, v in (fixed or {}).items():
+            r.vars[f['params'][k]['id']] = v
+        try:
+            ret = r.run()
+        except scansim.OOB as o:
+            raise Unresolved('interpreted on %s: %s' % (bs, o))
+        except (scansim.Unsupported, TypeError, KeyError, IndexError) as u:
+            raise Unresolved('outside the interpreted fragment: %s' % u)
+        if not (isinstance(ret, tuple) and ret[0] == 'P' and isinstance(ret[1], tuple) and ret[1][0] == 'O' and ret[1][1] != p0['id']):
+            raise Unresolved('the result is not a local string')
+        out = bufs[ret[1]]
+        if not all(isinstance(x, int) for x in out) or 0 not in out:
+            raise Unresolved('abstract or unterminated output')
+        return [x & 255 for x in out[:out.index(0)]]
+    table = {}
+    for bv in range(1, 256):
+        table[bv] = run([bv])
+    special = [b for b in range(1, 256) if table[b] != [b]]
+    alpha = sorted(set(special[:6] + [0x61, 0x25, 0x2b, 0x26, 0x3d, 0x2f, 0x20, 0xe9]))[:10]
+    issues = []
+    for n_ in (2, 3):
+        for t in itertools.product(alpha if n_ == 2 else alpha[:6], repeat=n_):
+            got = run(list(t))
+            want = [x for b in t for x in table[b]]
+            if got != want:
+                issues.append((list(t), got, want))
+                if len(issues) > 3:
+                    return table, ([], []), issues
+    return table, ([], []), issues
